@@ -353,3 +353,33 @@ Definition parse (s : pstate) (data : bytes) : pstate * list msg * option err :=
   loop (S (length (buf s0))) s0 [].
 
 End WithCallees.
+
+(* ---- when does the implementation ([real]) use one of its buffer-dependent shortcuts? ----
+   (observable on the implementation: line_end == LF was selected / the 411 peek raised) *)
+Section Quiet.
+Variable C : callees.
+Variable k : kind.
+
+Definition lf_select (s : pstate) : bool :=
+  match cur s with None => negb (contains CRLF (buf s)) && contains [LF] (buf s) | Some _ => false end.
+Definition is_peek (t : turn) : bool := match t with TErr EPeek411 => true | _ => false end.
+Definition quiet_turn (s : pstate) : bool := negb (lf_select s) && negb (is_peek (turn_of real C k s)).
+
+Fixpoint quiet_loop (fuel : nat) (s : pstate) : bool :=
+  match buf s with
+  | [] => true
+  | _ :: _ =>
+      match fuel with
+      | O => true
+      | S f => quiet_turn s && match turn_of real C k s with TMsg s' _ => quiet_loop f s' | _ => true end
+      end
+  end.
+Definition quiet_parse (s : pstate) (d : bytes) : bool :=
+  let s0 := {| buf := buf s ++ d; cur := cur s |} in quiet_loop (S (length (buf s0))) s0.
+
+Fixpoint quiet_run (s : pstate) (frags : list bytes) : bool :=
+  match frags with
+  | [] => true
+  | f :: fr => quiet_parse s f && match parse real C k s f with (s1, _, None) => quiet_run s1 fr | _ => true end
+  end.
+End Quiet.
